@@ -904,7 +904,7 @@ def serverReceive (w : World) (s : Nat) : Nat → World × Option RecvRes
         else (w, some (.some h m))
       | none =>
         if w.cfg.ff then (w, some (.some h m))
-        else serverReceive w s fuel       -- details and chunk are forgotten, nothing is released
+        else serverReceive (rcvRelease w (sid s) h) s fuel   -- the request of a vanished client is given back
 
 def chansQueued : List Chan → Nat
   | [] => 0
@@ -1132,8 +1132,9 @@ def opRespond (w : World) (s a tag : Nat) : World × String :=
       | none => (w, "none")
       | some S =>
         match S.allocate with
-        | (_, .exceedsMaxLoans) => (w, "err:loan:ExceedsMaxLoans")
-        | (_, .outOfMemory) => (w, "err:loan:OutOfMemory")
+        -- a failed allocation undoes the reservation made by `increment_loan_counter`
+        | (_, .exceedsMaxLoans) => (updActive w s a fun x => { x with loans := x.loans - 1 }, "err:loan:ExceedsMaxLoans")
+        | (_, .outOfMemory) => (updActive w s a fun x => { x with loans := x.loans - 1 }, "err:loan:OutOfMemory")
         | (_, .corrupted) => ({ w with panicked := true }, "PANIC")
         | (S, .ok chunk) => sendResponse (setSnd w (sid s) S) s A chunk tag
 
